@@ -23,6 +23,30 @@ CLAIMED = {
    text="Seeded edit / LIST / DELETE / TAB-lookup histories over a small universe of line numbers, with Ctrl-C after the j-th listed line and get_listing() snapshots held across edits; an ordered-map model is compared with the real listing after every operation and with every LIST transcript; held snapshots must keep rendering what they rendered when taken.",
    note="Trusted: the 40-line map model. Whole-program ranges written explicitly for DELETE (0-65529 and equivalents) are not judged.",
    tech="deterministic simulation: seeded histories against an ordered-map reference model, LIST interrupted mid-way, live-snapshot fault"),
+ "C01": dict(cat="exploration", ref="DESIGN.md section 5 C01, section 4.1, appendix B",
+   text="Seeded search over generated programs of the well-defined fragment and typed sessions (direct statements, RUN / RUN n / GOTO n, CONT after STOP/END, replies synthesised per INPUT) executed on the real VM under seven seeded quantum distributions; the full screen transcript of every typed line (output, prompts, REDO, trace tokens, error code and line, READY) is compared with RefBASIC, an independent reference interpreter over the generator's own AST. Evidence over the sampled programs, not proof; defects outside the generated fragment are invisible.",
+   note="Trusted: RefBASIC (rules of DESIGN.md appendix B, taken from the manual and the property statements) and the renderer; grey zones set the model's grey flag and discard the case (counted in the evidence).",
+   tech="deterministic simulation: seeded programs and sessions under seeded slice schedules, refinement check against an executable reference model (RefBASIC)"),
+ "C06": dict(cat="exploration", ref="DESIGN.md section 5 C06",
+   text="Seeded direct-mode sessions of store operations (typed LET incl. failing ones, DIM / ERASE / implicit dimensioning with boundary subscripts, DEFtype on ranges, SWAP same-typed and mixed, FOR, INPUT, MID$ assignment, CLEAR, RUN) over a universe of colliding names; after every operation a probe line reads back the touched names and a sample of others and is compared with RefBASIC's typed map.",
+   note="Trusted: RefBASIC's store model. Within one evaluation a base name is spelled either always with or always without a type suffix (whether A and A! are one variable is not settled by the manual). Interrupts inside SWAP / MID$= are enumerated by C13, pool exhaustion by C18.",
+   tech="deterministic simulation: seeded operation sequences with failing statements against a typed map reference model, read back after every step"),
+ "C09": dict(cat="exploration", ref="DESIGN.md section 5 C09",
+   text="Seeded programs with DATA lines anywhere (also in never-executed IF branches), READ lists of every type, RESTORE / RESTORE n to arbitrary lines, and sessions mixing RUN, direct-mode READ/RESTORE, edits that insert/change/delete DATA lines, CLEAR and STOP + READ + CONT; every typed line is compared with RefBASIC's data-pointer model.",
+   note="Trusted: RefBASIC. The DATA position right after an edit is a grey zone (READ there discards the case).",
+   tech="deterministic simulation: seeded programs and edit/run histories against RefBASIC's data-pointer model"),
+ "C10": dict(cat="exploration", ref="DESIGN.md section 5 C10",
+   text="Seeded programs over-sampling DEF FN (1-3 typed parameters named like program variables, bodies reading globals and calling earlier functions, calls inside PRINT lists, subscripts, FOR headers, IF predicates, ON selectors, arguments; planted wrong-arity and undefined calls) with sessions calling the functions from direct mode after globals changed, DEF in direct mode, CLEAR, CONT; judged by RefBASIC. 2% of the evaluations are runaway recursion programs that must end in ?OUT OF MEMORY with canary, intact listing and a fresh program running normally afterwards.",
+   note="Trusted: RefBASIC (parameters in a local frame). Line attribution of errors raised inside function bodies, calls after edits and calls under TRON are grey zones.",
+   tech="deterministic simulation: seeded programs and sessions against RefBASIC, pool-exhaustion fault (runaway recursion) with canary"),
+ "C11": dict(cat="exploration", ref="DESIGN.md section 5 C11, section 4.3",
+   text="Seeded programs and direct lines over-sampling PRINT lists (strings incl. multi-byte and embedded line feeds, numbers of each type, TAB around column/zone boundaries and +-255, SPC, POS, separators, trailing separators) interleaved with TRON, INPUT, planted errors and STOP with the cursor mid-line, LIST between prints, CONT. RefBASIC lays out from the simulated terminal's true cursor column; transcripts must be identical. The column clause is decided by simulation (two parties: terminal cursor vs the VM's belief); number formatting only for the generated values.",
+   note="Trusted: the terminal model's cursor rule and RefBASIC's PRINT rules. The for-all-floats formatting clause is a pure function and is not claimed.",
+   tech="deterministic simulation: terminal-cursor model vs VM column bookkeeping across Print/Input/Errors/List/trace/BREAK events, RefBASIC layout oracle"),
+ "C17": dict(cat="exploration", ref="DESIGN.md section 5 C17",
+   text="Seeded programs over-sampling INPUT (prompt / no prompt / leading comma, 1-5 targets of every type, array targets subscripted by earlier targets, in loops, subroutines, IF branches and direct mode) answered by synthesised replies of clearly valid, clearly invalid and structurally wrong classes with up to two bad replies before an accepted one; the request / REDO / request protocol, the caps flag and everything printed afterwards are compared with RefBASIC's reply model.",
+   note="Trusted: RefBASIC's reply grammar; grey-zone spellings are never generated. Interrupts in each protocol state are enumerated by C13.",
+   tech="deterministic simulation: request/retry protocol between VM and simulated terminal with hostile replies, reference reply model"),
 }
 
 NOT_APPLICABLE = {
